@@ -257,6 +257,31 @@ func rewrite(path string, src []byte, pkg string) ([]byte, bool, error) {
 			return true
 		})
 	}
+	// ... and the hand-over of a request to the upstream's proxy in package server (only where a harness runs the
+	// REAL proxy: vsched.YieldIO is a no-op unless the scenario switched I/O points on — the scripted origin has
+	// its own yield at the same place)
+	if pkg == "server" {
+		ast.Inspect(f, func(n ast.Node) bool {
+			b, ok := n.(*ast.BlockStmt)
+			if !ok {
+				return true
+			}
+			var out []ast.Stmt
+			for _, st := range b.List {
+				if as, ok := st.(*ast.AssignStmt); ok && len(as.Rhs) == 1 {
+					if ce, ok := as.Rhs[0].(*ast.CallExpr); ok {
+						if se, ok := ce.Fun.(*ast.SelectorExpr); ok && se.Sel.Name == "Proxy" {
+							out = append(out, &ast.ExprStmt{X: &ast.CallExpr{Fun: &ast.SelectorExpr{X: ast.NewIdent("vsched"), Sel: ast.NewIdent("YieldIO")}, Args: []ast.Expr{&ast.BasicLit{Kind: token.INT, Value: "78"}}}})
+							needSched = true
+						}
+					}
+				}
+				out = append(out, st)
+			}
+			b.List = out
+			return true
+		})
+	}
 	if pkg == "cache" {
 		var ferr error
 		selectOK := map[*ast.SelectStmt]bool{}
